@@ -70,6 +70,10 @@ def derive_layout(rng, base, mode):
             if n not in drop:
                 out[n] = list(base[n])
         return out or {k: list(v) for k, v in base.items()}
+    if mode == "missing_rep_subset":
+        # a replica is missing AND the remaining ones carry only part of their configurations: the operand's own sample counts differ from the merged ones
+        part = derive_layout(rng, base, "missing_rep")
+        return derive_layout(rng, part, rng.choice(["subset_prefix", "subset_stride", "subset_random"]))
     if mode == "other_ensemble":
         return gen_layout(rng, max_ens=1, ens_names=["Q", "other"])
     for n in names:
@@ -100,7 +104,7 @@ def derive_layout(rng, base, mode):
 
 
 DERIVE_MODES = ["same", "same", "subset_prefix", "subset_stride", "subset_random", "superset", "overlap",
-                "missing_rep", "other_ensemble", "shifted_odd"]
+                "missing_rep", "missing_rep_subset", "other_ensemble", "shifted_odd"]
 
 
 def gen_data(rng, n, kind="int"):
